@@ -114,7 +114,7 @@ def coq_peg(e):
     if tag == "insens":
         return "(PInsens %s)" % coq_bytes(e[1])
     if tag == "range":
-        return "(PRange %d %d)" % (ord(e[1][0]), ord(e[2][0]))
+        return "(PRange %d%%N %d%%N)" % (ord(e[1][0]), ord(e[2][0]))
     if tag == "id":
         return "(PId %s)" % coq_string(e[1])
     if tag in ("pos", "neg", "opt", "rep", "rep1"):
